@@ -516,6 +516,11 @@ class Walk:
                 return True
             if isinstance(st, C.CDecl) and st.name == v and st.init is not None:
                 return True
+            if nested and isinstance(st, (C.CFor, C.CWhile)) and not mentions and self.local_to_iteration(st.body, v):
+                # declared and initialised afresh inside a nested loop and mentioned nowhere else in this body: local to that loop
+                others = [x for x in body if x is not st and (any(isinstance(n, ast.Name) and n.id == v for y in _all([x]) for e in _stmt_exprs(y) for n in ast.walk(e)) or
+                                                              any(isinstance(y, C.CDecl) and y.name == v for y in _all([x])))]
+                return not others
             return False
         return False
 
